@@ -47,6 +47,8 @@ Proof.
   intros H. unfold dget, dset. cbn. rewrite lookup_update_same. rewrite (ulookup_uupdate_other key key' v H).
   destruct (lookup nm (dicts m)); reflexivity.
 Qed.
+Lemma dget_vars_stacks m vs sts nm key : dget (mkMx vs sts (dicts m)) nm key = dget m nm key.
+Proof. reflexivity. Qed.
 Lemma dget_dset_other_dict m nm nm' key key' v : nm <> nm' -> dget (dset m nm key v) nm' key' = dget m nm' key'.
 Proof. intros H. unfold dget, dset. cbn. rewrite (lookup_update_other nm nm' _ H). reflexivity. Qed.
 
@@ -54,7 +56,8 @@ Proof. intros H. unfold dget, dset. cbn. rewrite (lookup_update_other nm nm' _ H
 Definition writes (g : agg) : option Z :=
   match g with
   | Tally i | TallyS i => Some (100 + Z.of_nat i) | TallyC _ _ => Some 99 | First nm _ | Every nm _ _ | Subtotal nm _ _ | AssignK nm _ _ => Some nm
-  | Counter _ _ | Sum _ _ | CounterE _ _ => None
+  | Counter _ _ | Sum _ _ | CounterE _ _ | CounterEq _ _ _ => None
+  | CountIf _ nm _ => Some nm
   end.
 Definition comp_agg (c : comp) : option agg := match c with CAgg g | CAct (Agg g) | CWhen _ (Agg g) => Some g | _ => None end.
 (** the dictionary [nm] belongs to first(): no other function or assignment of the csvpath writes it *)
@@ -77,7 +80,7 @@ Section Agg.
   (** first(): one evaluation *)
   Theorem first_step s l nm i :
     let key := hdr_key l i in
-    let r := do_agg blanks AND s l (First nm i) in
+    let r := do_agg q blanks AND s l (First nm i) in
     match dget (x mx s) nm key with
     | Some (VI z) => fst r = s /\ snd r = false                                        (* seen before: nothing changes, no vote *)
     | None => dget (x mx (fst r)) nm key = Some (VI (pln mx s)) /\ snd r = true          (* first sighting: this line is recorded *)
@@ -87,9 +90,9 @@ Section Agg.
 
   (** a recorded first sighting survives every evaluation of every component, as long as the dictionary is first()'s own *)
   Lemma do_agg_keeps_first s l g nm key z : (match g with First _ _ => True | _ => writes g <> Some nm end) ->
-    dget (x mx s) nm key = Some (VI z) -> dget (x mx (fst (do_agg blanks AND s l g))) nm key = Some (VI z).
+    dget (x mx s) nm key = Some (VI z) -> dget (x mx (fst (do_agg q blanks AND s l g))) nm key = Some (VI z).
   Proof.
-    intros Hw H. destruct g as [i|nm' i|nm' i n|nm' k|nm' e|nm' i e|nm' key' e|i|i j|nm' e]; cbn [do_agg writes] in *.
+    intros Hw H. destruct g as [i|nm' i|nm' i n|nm' k|nm' e|nm' i e|nm' key' e|i|i j|nm' e|nm' k n|v' nm' c']; cbn [do_agg writes] in *.
     - cbn [fst x with_mx]. rewrite dget_dset_other_dict; [exact H|]. intros E. apply Hw. rewrite E. reflexivity.
     - destruct (Z.eq_dec nm' nm) as [->|Hn].
       + destruct (dget (x mx s) nm (hdr_key l i)) as [[z'|z'|t|]|] eqn:E; cbn [fst x with_mx]; try exact H.
@@ -104,6 +107,8 @@ Section Agg.
     - destruct (is_blank_text (tally_text l i)); cbn [fst x with_mx]; [exact H|]. rewrite dget_dset_other_dict; [exact H|]. intros E. apply Hw. rewrite E. reflexivity.
     - cbn [fst x with_mx]. rewrite dget_dset_other_dict; [exact H|]. intros E. apply Hw. rewrite E. reflexivity.
     - cbn [fst x with_mx]. exact H.
+    - cbn [fst x with_mx]. exact H.
+    - cbn [fst x with_mx]. rewrite dget_vars_stacks, dget_dset_other_dict; [exact H|]. intros E. apply Hw. rewrite E. reflexivity.
   Qed.
 
   Lemma eval_keeps_first c s l nm key z : first_owns nm c ->
@@ -146,15 +151,16 @@ Qed.
 
 (** tally(), every(), counter(), sum(), subtotal(), tracking-keyed assignment: one evaluation *)
 Section Steps.
+  Variable q : quirks.
   Variable blanks : list bool.
   Variable AND : bool.
 
   Theorem tally_step s l i :
-    let d := 100 + Z.of_nat i in let key := hdr_key l i in let m' := x mx (fst (do_agg blanks AND s l (Tally i))) in
+    let d := 100 + Z.of_nat i in let key := hdr_key l i in let m' := x mx (fst (do_agg q blanks AND s l (Tally i))) in
     dget m' d key = Some (VI (num_of (dget (x mx s) d key) + 1)) /\
     (forall key', key <> key' -> dget m' d key' = dget (x mx s) d key') /\
     (forall d' key', d <> d' -> dget m' d' key' = dget (x mx s) d' key') /\
-    vars m' = vars (x mx s) /\ stacks m' = stacks (x mx s) /\ snd (do_agg blanks AND s l (Tally i)) = true.
+    vars m' = vars (x mx s) /\ stacks m' = stacks (x mx s) /\ snd (do_agg q blanks AND s l (Tally i)) = true.
   Proof.
     cbn zeta. cbn [do_agg fst snd x with_mx]. repeat split.
     - apply dget_dset_same.
@@ -163,7 +169,7 @@ Section Steps.
   Qed.
 
   Theorem every_step s l nm i n :
-    let key := hdr_key l i in let r := do_agg blanks AND s l (Every nm i n) in
+    let key := hdr_key l i in let r := do_agg q blanks AND s l (Every nm i n) in
     dget (x mx (fst r)) nm key = Some (VI (num_of (dget (x mx s) nm key) + 1)) /\
     snd r = ((num_of (dget (x mx s) nm key) + 1) mod n =? 0) /\
     (forall key', key <> key' -> dget (x mx (fst r)) nm key' = dget (x mx s) nm key').
@@ -173,7 +179,7 @@ Section Steps.
   Qed.
 
   Theorem counter_step s l nm k :
-    let r := do_agg blanks AND s l (Counter nm k) in
+    let r := do_agg q blanks AND s l (Counter nm k) in
     lookup nm (vars (x mx (fst r))) = Some (VI (num_of (lookup nm (vars (x mx s))) + k)) /\
     (forall v, nm <> v -> lookup v (vars (x mx (fst r))) = lookup v (vars (x mx s))) /\
     dicts (x mx (fst r)) = dicts (x mx s) /\ stacks (x mx (fst r)) = stacks (x mx s).
@@ -184,7 +190,7 @@ Section Steps.
 
   (* counter with an expression argument: the increment is this line's value of the expression, not the first line's *)
   Theorem counter_expr_step s l nm e :
-    let r := do_agg blanks AND s l (CounterE nm e) in
+    let r := do_agg q blanks AND s l (CounterE nm e) in
     lookup nm (vars (x mx (fst r))) = Some (VI (num_of (lookup nm (vars (x mx s))) + fst (neval blanks s l e))) /\
     (forall v, nm <> v -> lookup v (vars (x mx (fst r))) = lookup v (vars (x mx s))) /\
     dicts (x mx (fst r)) = dicts (x mx s) /\ stacks (x mx (fst r)) = stacks (x mx s).
@@ -193,8 +199,37 @@ Section Steps.
     intros v Hv. apply lookup_update_other. exact Hv.
   Qed.
 
+  (* counter.nm(k) == n: the value compared is the counter AFTER this click *)
+  Theorem counter_eq_step s l nm k n :
+    let r := do_agg q blanks AND s l (CounterEq nm k n) in
+    let cnt := num_of (lookup nm (vars (x mx s))) + k in
+    lookup nm (vars (x mx (fst r))) = Some (VI cnt) /\ snd r = (cnt =? n) /\
+    (forall v, nm <> v -> lookup v (vars (x mx (fst r))) = lookup v (vars (x mx s))) /\
+    dicts (x mx (fst r)) = dicts (x mx s) /\ stacks (x mx (fst r)) = stacks (x mx s).
+  Proof.
+    cbn zeta. cbn [do_agg fst snd x with_mx vars dicts stacks]. repeat split; [apply lookup_update_same|].
+    intros v Hv. apply lookup_update_other. exact Hv.
+  Qed.
+
+  (* @v = count.nm(c): on EVERY evaluation (no onmatch) the entry for this line's answer of c grows by one and v gets it;
+     the other entry, every other dictionary and every other variable are untouched *)
+  Theorem count_if_step s l v nm c :
+    let r := do_agg q blanks AND s l (CountIf v nm c) in
+    let key := if beval q blanks s l c then py_true else py_false in
+    let cnt := num_of (dget (x mx s) nm key) + 1 in
+    dget (x mx (fst r)) nm key = Some (VI cnt) /\ lookup v (vars (x mx (fst r))) = Some (VI cnt) /\
+    (forall key', key <> key' -> dget (x mx (fst r)) nm key' = dget (x mx s) nm key') /\
+    (forall w, v <> w -> lookup w (vars (x mx (fst r))) = lookup w (vars (x mx s))) /\
+    snd r = AND.
+  Proof.
+    cbn zeta. cbn [do_agg fst snd x with_mx]. split; [rewrite dget_vars_stacks; apply dget_dset_same|].
+    split; [cbn [vars]; apply lookup_update_same|].
+    split; [intros key' Hk; rewrite dget_vars_stacks; apply dget_dset_other_key; exact Hk|].
+    split; [intros w Hw; cbn [vars dset]; apply lookup_update_other; exact Hw|reflexivity].
+  Qed.
+
   Theorem sum_step s l nm e :
-    let r := do_agg blanks AND s l (Sum nm e) in
+    let r := do_agg q blanks AND s l (Sum nm e) in
     lookup nm (vars (x mx (fst r))) = Some (VF (num_of (lookup nm (vars (x mx s))) + fst (neval blanks s l e))) /\
     (forall v, nm <> v -> lookup v (vars (x mx (fst r))) = lookup v (vars (x mx s))).
   Proof.
@@ -203,7 +238,7 @@ Section Steps.
   Qed.
 
   Theorem subtotal_step s l nm i e :
-    let key := hdr_key l i in let r := do_agg blanks AND s l (Subtotal nm i e) in
+    let key := hdr_key l i in let r := do_agg q blanks AND s l (Subtotal nm i e) in
     dget (x mx (fst r)) nm key = Some (VF (num_of (dget (x mx s) nm key) + fst (neval blanks s l e))) /\
     (forall key', key <> key' -> dget (x mx (fst r)) nm key' = dget (x mx s) nm key').
   Proof.
@@ -212,7 +247,7 @@ Section Steps.
   Qed.
 
   Theorem assign_key_step s l nm key e :
-    let r := do_agg blanks AND s l (AssignK nm key e) in
+    let r := do_agg q blanks AND s l (AssignK nm key e) in
     dget (x mx (fst r)) nm key = Some (nvalue blanks s l e) /\
     (forall key', key <> key' -> dget (x mx (fst r)) nm key' = dget (x mx s) nm key').
   Proof. cbn zeta. cbn [do_agg fst snd x with_mx]. split; [apply dget_dset_same|]. intros key' Hk. apply dget_dset_other_key. exact Hk. Qed.
@@ -220,11 +255,12 @@ End Steps.
 
 (** tally() with several arguments: the per-argument store skips a blank value, the combined store keys on the values joined by '|' *)
 Section Tally2.
+  Variable q : quirks.
   Variable blanks : list bool.
   Variable AND : bool.
 
   Theorem tally_arg_step s l i :
-    let d := 100 + Z.of_nat i in let key := tally_text l i in let r := do_agg blanks AND s l (TallyS i) in
+    let d := 100 + Z.of_nat i in let key := tally_text l i in let r := do_agg q blanks AND s l (TallyS i) in
     snd r = true /\
     (is_blank_text key = true -> fst r = s) /\
     (is_blank_text key = false ->
@@ -238,7 +274,7 @@ Section Tally2.
   Qed.
 
   Theorem tally_combined_step s l i j :
-    let key := tally_text l i ++ [124] ++ tally_text l j in let r := do_agg blanks AND s l (TallyC i j) in
+    let key := tally_text l i ++ [124] ++ tally_text l j in let r := do_agg q blanks AND s l (TallyC i j) in
     snd r = true /\ dget (x mx (fst r)) 99 key = Some (VI (num_of (dget (x mx s) 99 key) + 1)) /\
     (forall key', key <> key' -> dget (x mx (fst r)) 99 key' = dget (x mx s) 99 key') /\
     (forall d key', d <> 99 -> dget (x mx (fst r)) d key' = dget (x mx s) d key').
